@@ -153,9 +153,63 @@ def eval_case(n_points, specs, weights, thr, detail=False):
     return (prob, obs, shape)
 
 
+_POOLS = {}
+
+
+def pool(name):
+    """Tree pools by name, rebuilt (deterministically) inside each worker."""
+    if name not in _POOLS:
+        n, outl = {"s3o": (3, True), "s4": (4, False), "s4o": (4, True)}[name]
+        _POOLS[name] = all_specs(range(n), outliers=outl)
+    return _POOLS[name]
+
+
+def expand(desc):
+    """Work descriptor -> list of (specs, weights, thr)."""
+    import random
+
+    kind, n_points, src, thrs, wmodes, seed = desc[:6]
+    rng = random.Random(seed)
+    if kind == "explicit":
+        multisets = [tuple(ms) for ms in src]
+    elif kind == "comb":
+        name, k, start, stop = src
+        P = pool(name)
+        multisets = [tuple(P[i] for i in idx) for idx in itertools.islice(itertools.combinations_with_replacement(range(len(P)), k), start, stop)]
+    else:  # "rand"
+        name, kmin, kmax, count = src
+        P = pool(name)
+        multisets = [tuple(sorted(rng.choice(P) for _ in range(rng.randint(kmin, kmax)))) for _ in range(count)]
+    cases = []
+    for ms in multisets:
+        for thr in thrs:
+            for wm in wmodes:
+                if wm is None:
+                    cases.append((ms, None, thr))
+                else:
+                    for wv in WEIGHTS[len(ms)][:wm]:
+                        w = list(wv)
+                        rng.shuffle(w)
+                        cases.append((ms, w, thr))
+    return n_points, cases
+
+
+def n_cases(desc):
+    kind, _, src, thrs, wmodes, _ = desc[:6]
+    if kind == "explicit":
+        sizes = [len(ms) for ms in src]
+    elif kind == "comb":
+        sizes = [src[1]] * (src[3] - src[2])
+    else:
+        sizes = [src[2]] * src[3]  # upper bound on the weight-vector count when kmin < kmax
+    per = lambda k: sum(1 if wm is None else len(WEIGHTS[k][:wm]) for wm in wmodes)  # noqa: E731
+    return sum(per(k) for k in sizes) * len(thrs)
+
+
 def run_chunk(args):
-    """Evaluate a chunk of (specs tuple, weights, thr); returns compact results."""
-    n_points, cases, detail_every = args
+    """Evaluate one work descriptor; returns compact results."""
+    desc, detail_every = args
+    n_points, cases = expand(desc)
     fails, obs, hist = [], [], {}
     for k, (specs, weights, thr) in enumerate(cases):
         want_detail = detail_every and (k % detail_every == 0)
@@ -249,46 +303,42 @@ def run(ctx):
     )
     ctx.exhaustive = False
     rng = ctx.rng
-    work = []  # (n_points, cases)
+    work = []  # descriptors, expanded inside the workers
 
-    def add(n_points, multisets, thrs, weighted_modes):
-        cases = []
-        for ms in multisets:
-            for thr in thrs:
-                for wm in weighted_modes:
-                    if wm is None:
-                        cases.append((ms, None, thr))
-                    else:
-                        for wv in WEIGHTS[len(ms)][: wm]:
-                            w = list(wv)
-                            rng.shuffle(w)
-                            cases.append((ms, w, thr))
-        for i in range(0, len(cases), 4000):
-            work.append((n_points, cases[i : i + 4000]))
+    def seed():
+        return rng.randrange(2**31)
 
-    add(4, [tuple(WITNESS), tuple(WITNESS_CYCLE)], THRESHOLDS, [None, 2])
-    add(6, [tuple(WITNESS_DAG)], [0.5], [None])
+    def comb(n_points, name, size, k, thrs, wmodes, step=3000):
+        total = math.comb(size + k - 1, k)
+        for st in range(0, total, step):
+            work.append(("comb", n_points, (name, k, st, min(total, st + step)), thrs, wmodes, seed()))
+
+    def rand(n_points, name, kmin, kmax, count, thrs, wmodes, step=3000):
+        for st in range(0, count, step):
+            work.append(("rand", n_points, (name, kmin, kmax, min(step, count - st)), thrs, wmodes, seed()))
+
+    work.append(("explicit", 4, [tuple(WITNESS), tuple(WITNESS_CYCLE)], THRESHOLDS, [None, 2], seed()))
+    work.append(("explicit", 6, [tuple(WITNESS_DAG)], [0.5], [None], seed()))
     s3 = all_specs(range(3), outliers=True)
     s4 = all_specs(range(4), outliers=False)
-    m3 = [ms for k in (1, 2, 3) for ms in itertools.combinations_with_replacement(s3, k)]
-    add(3, m3, THRESHOLDS, [None, 1] if ctx.quick else [None, 2])
-    m4 = [ms for k in (1, 2) for ms in itertools.combinations_with_replacement(s4, k)]
-    add(4, m4, THRESHOLDS if not ctx.quick else [0.5, 0.75], [None, 1])
+    for k in (1, 2, 3):
+        comb(3, "s3o", len(s3), k, THRESHOLDS, [None, 1] if ctx.quick else [None, 2])
+    for k in (1, 2):
+        comb(4, "s4", len(s4), k, THRESHOLDS if not ctx.quick else [0.5, 0.75], [None, 1])
     if ctx.quick:
-        add(4, [tuple(sorted(rng.choice(s4) for _ in range(3))) for _ in range(40000)], [0.5], [None, 1])
-        add(4, [tuple(sorted(rng.choice(s4) for _ in range(4))) for _ in range(10000)], [0.5, 0.75], [None])
+        rand(4, "s4", 3, 3, 40000, [0.5], [None, 1])
+        rand(4, "s4", 4, 4, 10000, [0.5, 0.75], [None])
     else:
-        add(4, list(itertools.combinations_with_replacement(s4, 3)), [0.5], [None])
-        add(4, [tuple(sorted(rng.choice(s4) for _ in range(3))) for _ in range(300000)], [0.5, 0.75], [2])
-        add(4, [tuple(sorted(rng.choice(s4) for _ in range(4))) for _ in range(400000)], [0.5, 0.6, 0.75], [None, 1])
-        s4o = all_specs(range(4), outliers=True)
-        add(4, [tuple(sorted(rng.choice(s4o) for _ in range(rng.randint(2, 4)))) for _ in range(200000)], THRESHOLDS, [None, 1])
-    total = sum(len(c) for _, c in work)
-    ctx.log("function level: %d evaluations in %d chunks" % (total, len(work)))
+        comb(4, "s4", len(s4), 3, [0.5], [None], step=20000)
+        rand(4, "s4", 3, 3, 200000, [0.5, 0.75], [2], step=10000)
+        rand(4, "s4", 4, 4, 150000, [0.5, 0.6, 0.75], [None, 1], step=10000)
+        rand(4, "s4o", 2, 4, 100000, THRESHOLDS, [None, 1], step=10000)
+    total = sum(n_cases(d) for d in work)
+    ctx.log("function level: about %d evaluations in %d chunks" % (total, len(work)))
     detail_every = max(1, total // 1500)
     all_fails, all_obs = [], []
     with ProcessPoolExecutor(max_workers=4) as ex:
-        for fails, obs, hist, n in ex.map(run_chunk, [(n, c, detail_every) for n, c in work]):
+        for fails, obs, hist, n in ex.map(run_chunk, [(d, detail_every) for d in work]):
             all_fails += fails
             all_obs += obs
             for k, v in hist.items():
@@ -393,3 +443,32 @@ def run(ctx):
         "Python set iteration order is modelled by list order; the comparison is on sets (nodes, edges, clades)",
         "the model's relabelled graph is compared with the real networkx graph (idxs of nodes, edges); the final clades are compared when the real tree's redundant views agree",
     ]
+
+
+def replay(ctx, doc):
+    """Re-run exactly the recorded case on the real code."""
+    r = doc["replay"]
+    if r.get("level") == "function":
+        specs = tuple(tf.tuplify(t) for t in r["trees"])
+        prob, ob, shape = eval_case(r["n_points"], specs, r["weights"], r["threshold"], detail=True)
+        ctx.case(key=repr(specs), sample={"observed": ob})
+        print("replay (function level): trees=%r weights=%r threshold=%r -> %r" % (specs, r["weights"], r["threshold"], prob))
+        if prob not in (None, "near"):
+            ctx.fail(prob[0], prob[1], r)
+    else:
+        chains = {int(c): [(s, tf.tuplify(sp), tf.tuplify(v)) for s, sp, v in ch] for c, ch in r["chains"].items()}
+        _, thr, wt = r["command"].split("/")
+        job = {"n_points": r["n_points"], "n_samples": 1, "chains": chains, "order": r.get("order"), "cmds": [("cons", float(thr), wt)]}
+        out = tf.run_job(job)
+        print("replay (command level):", out)
+        o = out[r["command"]]
+        entries = [(s, sp) for c in (r.get("order") or sorted(chains)) for s, sp, _ in chains[c]]
+        sup = tf.clade_support(tf.consensus_weights(entries, wt))
+        want = frozenset(c for c, v in sup.items() if v > float(thr) + 1e-9)
+        ctx.case(key=r["command"])
+        if "error" in o:
+            ctx.fail(doc["key"], "still raises %s at %s" % (o["error"], o["where"]), r)
+        else:
+            sp = tf.spec_from_outputs(o["table"], tf.parse_newick(o["newick_text"]), {"m%d" % i: i for i in range(r["n_points"])})
+            if clades(sp) != want:
+                ctx.fail(doc["key"], "output clades %s, expected %s" % (sorted(map(sorted, clades(sp))), sorted(map(sorted, want))), r)
